@@ -52,6 +52,19 @@ CHECKS = {
          "Parity theorem covers polygons; curved paths by sampled reference only."),
    technique='Coq theorems (ring/field, Coquelicot RInt, nra) + translator agreement + exact-rational correspondence',
    ref='DESIGN.md §3 C14'),
+ 'C15': dict(
+   text=("Model of bezier_unit_tangent (regular branch and the rational_limit + principal-csqrt fallback), normal, segment_curvature, "
+         "Line/Arc versions, Path.curvature scaling (coq/Model/Tangent.v). Theorems over R: |unit_tangent|=1 and = d/|d| at regular points "
+         "with d the TRUE derivative (linked to C03's derivative theorems), normal = tangent rotated by -90 degrees, curvature formula, "
+         "0 on lines, 1/r on circular arcs, covariance under translation/rotation/scaling/reversal (tangent and curvature/|lambda|); "
+         "singular points: the one-sided Coquelicot limits of d/|d| are the first non-vanishing derivative's direction (sign (-1)^k from the "
+         "left), the fallback returns the principal root of (f1/|f1|)^2 — correct in the right half plane (_partial), REFUTED for every "
+         "left-half-plane heading (general theorem + exact Qc and bigfloat witnesses). Tie: 5 translator agreement lemmas + 120-bit bigfloat "
+         "correspondence; statement evaluated on the implementation incl. finite-difference sign check at singular points."),
+   note=("Trusted: kernel, py2v.py, harness, BigF evaluation. Zeros of order >= 3 and the curvature fallback are modelled but not proved. "
+         "Arc derivatives from C04, T2t from C05."),
+   technique='Coq theorems over R (Coquelicot filterlim/Derive, field, nra) + translator agreement + bigfloat correspondence',
+   ref='DESIGN.md §3 C15'),
  'C17': dict(
    text=("Reference semantics (SVG 1.1 §7.6 transform items, §9 shapes, structural flattening) and faithful models of "
          "flattened_paths' explicit stack, parse_transform, the *2pathd converters, svg2paths, SaxDocument (coq/Model/SvgTree.v). "
